@@ -371,6 +371,10 @@ func (c *Ctx) checkPurgeOnlyFromClose(rule string) {
 			}
 		})
 	}
+	if dyn := c.dynamicCallers(purge); len(dyn) > 0 {
+		okP = false
+		c.bad(rule, c.fnKey(purge)+":closed-world", dyn[0].Pos(), "the purge function can be reached through an interface or function value (VTA call graph): its callers cannot be enumerated", c.describe(dyn[0].(ssa.Instruction)))
+	}
 	if okP {
 		c.ok(rule, c.fnKey(purge), purge.Pos(), fmt.Sprintf("the purge is called from %d site(s), all in Close after the final report", nP))
 	}
